@@ -98,6 +98,9 @@ def classify(f, vals, ctx, route, kind, ref, got):
             return "unary-minus-inline-zero-sign"
         if v in ("M1", "M2", "M3") and kind == "trace":
             return "unary-minus-inline-method"
+    # JOP_ERROR reads an 8-bit register field but the compiler emits it with a wide register
+    if inline and f == "error" and len(vals) == 1 and ctx in ("far", "farset") and kind == "error-value":
+        return "error-inline-far-register"
     # a bare variable operand is read when the instruction runs: an operator method called by an
     # earlier step of the same inlined reduction has changed it meanwhile
     if inline and f in M.VAROPS and "M3" in vals and "v" in vals and len(vals) >= 3:
